@@ -459,6 +459,20 @@ class Fn:
                 cp = nxt
             else:
                 break
+        # in a view: `(closure value).k` / `(tuple value).k` where the
+        # projection was appended after the aggregate had been resolved
+        # (a capture read through the inlined closure's environment)
+        for _ in range(4):
+            if cp and cp[0][0] == "agg" and len(cp) >= 2 and cp[1] != "*" and cp[1] != "&" \
+                    and cp[1][0] == "f" and _depth < 30 and getattr(self, "is_view", False):
+                st = self.stmts(cp[0][1])[cp[0][2]]
+                kd, aops = st[2][1], st[2][2]
+                i = cp[1][1]
+                if kd.get("k") in ("closure", "tuple") and i < len(aops) and is_place_operand(aops[i]):
+                    inner = self.canon(op_place(aops[i]), see_through, _depth + 1)
+                    cp = self._append(inner, list(cp[2:]))
+                    continue
+            break
         return cp
 
     def _canon_raw(self, place, see_through=None, _depth=0):
